@@ -48,6 +48,14 @@ def run(chk):
              "which branch a cross-product test takes)")
     chk.rule("ADD.closing-vertex", "a closing vertex equal to the first one is dropped for closed paths (and only for those)")
     chk.rule("T.comparator", "LocMinSorter, IntersectListSort, HorzSegSorter: irreflexive, asymmetric, transitive, transitive incomparability")
+    chk.rule("AXIS.homogeneous", "GetSegmentIntersectPt (both precision variants) never mixes x and y quantities in sums, comparisons or stores")
+    if "hi" not in cfgs:
+        # the CLIPPER2_HI_PRECISION variant of the intersection point, in the quick tier too: a constant that does not cancel shifts every
+        # crossing by an amount that depends on where the figure sits - no translation or transposition equivariance
+        from ..engines import e14_poly as _e14h
+        _dbh = AstDB("hi")
+        _e14h.rule_intersect(_dbh, chk, "hi")
+        _e14h.rule_axis(_dbh, chk, "hi")
     for cfg in cfgs:
         db = AstDB(cfg)
         e3.table_symmetry(db, chk, cfg)
@@ -75,6 +83,7 @@ def run(chk):
         _e8.rule_no_passthrough(db, chk, cfg)
         from ..engines import e14_poly as e14
         e14.rule_intersect(db, chk, cfg)
+        e14.rule_axis(db, chk, cfg)
         e9.rule_wide_kept(db, chk, cfg)
         e14.rule_cross(db, chk, cfg)
         e3.ip_on_edge_rule(db, chk, cfg)
